@@ -861,6 +861,23 @@ pub fn gen(rng: &mut Rng, tier: &str, dist: &mut Dist) -> Vec<String> {
             }
         }
     }
+    // LZIP dictionary sizes BETWEEN representable ones (2^n - k*2^(n-4)): the header byte must round UP;
+    // a 96-byte block repeated exactly dict_size bytes later needs the whole dictionary
+    for nlog in 13..=(if tier == "thorough" { 16 } else { 14 }) {
+        for k in 0..8u32 {
+            let unit = 1u32 << (nlog - 4);
+            let mid = (1u32 << nlog) - k * unit - unit / 2;
+            for dv in [mid - 1, mid, mid + 1, mid - unit / 4, mid + unit / 4] {
+                let mut data: Vec<u8> = (0..dv as usize + 96).map(|_| rng.next() as u8).collect();
+                let blk: Vec<u8> = data[..96].to_vec();
+                data[dv as usize..dv as usize + 96].copy_from_slice(&blk);
+                let o = Opts { lc: 3, lp: 0, pb: 2, dict: dv, nice: 64, mode: 0, mf: 0, depth: 0 };
+                dist.bump("lzip.dict_between_representable");
+                let g = LzGen { dict: dv, ms: None, opts: o, parts: vec![data] };
+                push_lzip(&mut cmds, &g, rng, dist);
+            }
+        }
+    }
     for i in 0..n {
         if i % 3 != 2 {
             let g = gen_xz(rng, i, max_len, true, dist);
